@@ -658,6 +658,9 @@ public:
     kvs("file", fileOf(FD->getLocation()));
     kvi("line", line(FD->getBeginLoc()));
     kvi("end", line(FD->getEndLoc()));
+    // file of the body (differs from "file" for out-of-line definitions of member templates, whose
+    // instantiated declaration is located at the in-class declaration)
+    if (FD->getBody()) kvs("bfile", fileOf(FD->getBody()->getBeginLoc()));
     kvi("ret", typeId(FD->getReturnType()));
     os += ",\"params\":[";
     for (unsigned i = 0; i < FD->getNumParams(); ++i) {
